@@ -794,8 +794,10 @@ class ServiceMethodCompiler(ProtoContentBase):
             Param name corresponding to py_input_message_type.
         """
         name = pythonize_field_name(self.py_input_message_type)
-        # the parameter follows `self` in the generated method signatures
-        return f"{name}_" if name == "self" else name
+        # the parameter follows `self` in the generated method signatures, and the
+        # stub methods have the keyword-only parameters timeout, deadline, metadata
+        reserved = ("self", "timeout", "deadline", "metadata")
+        return f"{name}_" if name in reserved else name
 
     @property
     def py_output_message_type(self) -> str:
